@@ -10,7 +10,13 @@ fuzz_target!(|data: &[u8]| {
         return;
     }
     let mut info = CaseInfo::default();
-    if data[0] & 1 == 0 {
+    let only = std::env::var("FUZZ_PROP").ok();
+    let spi = match only.as_deref() {
+        Some("C06") => true,
+        Some("C07") => false,
+        _ => data[0] & 1 == 0,
+    };
+    if spi {
         let case = fuzzdec::spi_case(&data[1..]);
         if let Err(e) = c06::check(&case, &mut info) {
             eprintln!("FUZZ-VIOLATION property=C06 reason={}", e);
